@@ -26,7 +26,7 @@ RULE = ("each of the 657 named colours once on a rotating component/slot (exhaus
         "single-section (1..many pages), multi-section (2..4 sections with different palettes) and figure "
         "documents; all cells sentinel-tagged. non-trivial = >=1 non-default colour requested; distinct by spec hash")
 ASSUMPTIONS = ["RGB of a named colour is taken from the repository's colour dictionary as data",
-               "matrix-shaped colours are only used on single-page tables (page re-basing is C09's subject)"]
+               "matrix-shaped colours are bound to the original row on every page (C09's rule)"]
 DECIDING = ["docs_parsed", "color_refs_resolved", "font_refs_resolved", "tagged_elements_checked",
             "context_hook_calls"]
 FLOOR = {"quick": 1200, "thorough": 15000}
@@ -168,7 +168,7 @@ def gen_single(rng, pal):
     multi_page = rng.random() < 0.5
     n = rng.randint(1, 14)
     nc = rng.randint(1, 5)
-    spec = {"kind": "table", "df": tagged_df(n, nc), "body": body_attrs(rng, pal, n, nc, not multi_page)}
+    spec = {"kind": "table", "df": tagged_df(n, nc), "body": body_attrs(rng, pal, n, nc, True)}
     spec["colheader"] = header(rng, pal, nc)
     spec["page"] = {"nrow": rng.randint(4, 8) if multi_page else 60}
     if rng.random() < 0.3:
